@@ -1817,6 +1817,7 @@ package gomatrixserverlib
 
 //@ func (EventJSONs).UntrustedEvents
 //@   property C14, C18:safety
+//@   zerooffsets
 //@   ensures no-nil-events: forall i int :: 0 <= i && i < len(result) ==> result[i] != nil
 //@   loop 1: invariant 0 <= idx(1) && idx(1) <= len(e) && (forall i int :: 0 <= i && i < len(events) ==> events[i] != nil)
 
